@@ -311,6 +311,9 @@ func checkC02(c *Ctx, r *Result, tier string) {
 	}
 	r.Floor("R02c", total, 25)
 
+	// ---- R02e attribution ------------------------------------------------------------------------
+	c02Attribution(c, r)
+
 	// ---- R02d lock order -------------------------------------------------------------------------------
 	checkLockOrder(c, r, lfs, "R02d-lock-order", engineLockClass)
 }
@@ -550,4 +553,125 @@ func c02ZeroTest(fn *ssa.Function, p ssa.CallInstruction, f *types.Var) (bool, s
 		}
 	}
 	return false, "the finished notification is not control dependent on the test unfinished == 0 taken after the decrement (it could fire early, late or more than once)"
+}
+
+// c02Attribution (R02e): provenance of what is recorded — an error is stored under the name of
+// the rule whose action returned it, the task error carries the task's own event and monitor,
+// a failed monitor is registered under its own id.
+func c02Attribution(c *Ctx, r *Result) {
+	procIface := c.Interface("engine", "Processor")
+	fAction := c.Field("engine", "Rule", "Action")
+	fName := c.Field("engine", "Rule", "Name")
+	n := 0
+	// (1) errors[rule.Name] = err of rule.Action
+	for _, fn := range c.Implementations(procIface, "ProcessEvent") {
+		key := c.FuncKey(fn)
+		allInstrs(fn, func(in ssa.Instruction) {
+			mu, ok := in.(*ssa.MapUpdate)
+			if !ok || mu.Value.Type().String() != "error" {
+				return
+			}
+			n++
+			site := key + "#errors[rule]=err"
+			pos := c.Pos(c.InstrPos(in))
+			good := false
+			why := "the stored error is not the result of a rule action"
+			if call, isCall := unspill(mu.Value).(*ssa.Call); isCall && !call.Call.IsInvoke() {
+				if ld, isLoad := call.Call.Value.(*ssa.UnOp); isLoad {
+					if fa, isFA := ld.X.(*ssa.FieldAddr); isFA && fieldVar(fa) == fAction {
+						ruleV := fa.X
+						why = "the key is not the Name of the rule whose action returned the error"
+						if kl, isKL := mu.Key.(*ssa.UnOp); isKL {
+							if kfa, isKFA := kl.X.(*ssa.FieldAddr); isKFA && fieldVar(kfa) == fName && equivValue(kfa.X, ruleV, 0) {
+								good = true
+							}
+						}
+					}
+				}
+			}
+			if good {
+				r.Instance("R02e", site, pos, "ok", "errors[rule.Name] = error returned by that rule's action", true)
+			} else {
+				r.Instance("R02e", site, pos, "finding", why, true)
+				r.Report(Finding{Rule: "R02e", Site: site, Pos: pos, Msg: key + ": " + why + " — errors would be attributed to another rule or overwrite each other"})
+			}
+		})
+	}
+	// (2) TaskError{errors, t.e, t.m}
+	taskErr := c.NamedType("engine", "TaskError")
+	fE, fM := c.Field("engine", "Task", "e"), c.Field("engine", "Task", "m")
+	for _, fn := range c.ModFuncs() {
+		if c.PkgOf(fn) != "engine" {
+			continue
+		}
+		key := c.FuncKey(fn)
+		allInstrs(fn, func(in ssa.Instruction) {
+			a, ok := in.(*ssa.Alloc)
+			if !ok || namedOf(a.Type()) != taskErr || !a.Heap {
+				return
+			}
+			n++
+			site := key + "#TaskError"
+			pos := c.Pos(c.InstrPos(in))
+			got := map[string]ssa.Value{}
+			for _, ref := range *a.Referrers() {
+				if fa, isFA := ref.(*ssa.FieldAddr); isFA {
+					for _, ref2 := range *fa.Referrers() {
+						if st, isSt := ref2.(*ssa.Store); isSt && st.Addr == fa {
+							got[fieldName(fa.X.Type(), fa.Field)] = st.Val
+						}
+					}
+				}
+			}
+			evOK, monOK := false, false
+			if ld, isLoad := got["Event"].(*ssa.UnOp); isLoad && fieldVar(ld.X) == fE && len(fn.Params) > 0 && rootOf(ld.X) == ssa.Value(fn.Params[0]) {
+				evOK = true
+			}
+			if ld, isLoad := stripConv(got["Monitor"]).(*ssa.UnOp); isLoad && fieldVar(ld.X) == fM && len(fn.Params) > 0 && rootOf(ld.X) == ssa.Value(fn.Params[0]) {
+				monOK = true
+			}
+			_, fromProc := unspill(got["ErrorMap"]).(*ssa.Call)
+			if evOK && monOK && fromProc {
+				r.Instance("R02e", site, pos, "ok", "TaskError{ProcessEvent's errors, the task's own event, the task's own monitor}", true)
+			} else {
+				r.Instance("R02e", site, pos, "finding", fmt.Sprintf("event ok: %v, monitor ok: %v, errors from ProcessEvent: %v", evOK, monOK, fromProc), true)
+				r.Report(Finding{Rule: "R02e", Site: site, Pos: pos,
+					Msg: key + ": the task error is not built from ProcessEvent's result with the task's own event and monitor: errors would be reported for another event"})
+			}
+		})
+	}
+	// (3) errors[monitor.ID()] = monitor
+	fErrors := c.Field("engine", "RootMonitor", "errors")
+	for _, fn := range c.ModFuncs() {
+		if c.PkgOf(fn) != "engine" || fErrors == nil {
+			continue
+		}
+		for _, a := range elemAccessesOf(fn, fErrors) {
+			mu, ok := a.Instr.(*ssa.MapUpdate)
+			if !ok {
+				continue
+			}
+			n++
+			key := c.FuncKey(fn)
+			site := key + "#errors[id]=monitor"
+			pos := c.Pos(c.InstrPos(mu))
+			good := false
+			if call, isCall := mu.Key.(*ssa.Call); isCall {
+				if o := calleeObj(call.Common()); o != nil && o.Name() == "ID" {
+					args := callArgs(call.Common())
+					if len(args) > 0 && unspill(args[0]) == unspill(mu.Value) {
+						good = true
+					}
+				}
+			}
+			if good {
+				r.Instance("R02e", site, pos, "ok", "a failed monitor is registered under its own id", true)
+			} else {
+				r.Instance("R02e", site, pos, "finding", "key is not the id of the stored monitor", true)
+				r.Report(Finding{Rule: "R02e", Site: site, Pos: pos,
+					Msg: key + ": a failed monitor is not registered under its own id: error reports of one cascade overwrite each other"})
+			}
+		}
+	}
+	r.Floor("R02e", n, 3)
 }
